@@ -4,6 +4,7 @@ import sys
 
 from . import build as B
 from . import threadcheck as T
+from . import historycheck as H
 
 REAL_VS_STUB_THREADS = {
     "real": ["parallel/Worker.hpp (unmodified)", "StringDictionaryHASHRPDACBlocks constructor and every block builder", "libstdc++ std::thread/mutex/condition_variable wrappers", "glibc malloc / sanitizer allocator", "real pthreads (one released at a time)"],
@@ -42,12 +43,33 @@ def c11(a):
                               REAL_VS_STUB_THREADS, det_sample=400 if a.tier == "quick" else 3000)
 
 
-CHECKS = {"C10": c10, "C09": c09, "C11": c11}
+ASSUME_HIST = [
+    "inputs come from the closed catalogue (DESIGN §2.5); VERIF_SEED drives the simulated dimensions (history, interleaving, stream chunking, universe, knob)",
+    "differential oracles along the simulated dimension only; a failure of the reference execution is precondition_failed (attributed to C07), never a violation of this property",
+    "uninitialised stack variables are not controlled by heap universes",
+]
+
+
+def hist(prop, mode, quick_runs, thorough_runs, quick_budget, thorough_budget, ref, level="exploration", c07=False):
+    def f(a):
+        runs = a.runs or (quick_runs if a.tier == "quick" else thorough_runs)
+        budget = a.budget or (quick_budget if a.tier == "quick" else thorough_budget)
+        cat = 48 if a.tier == "quick" else 512
+        return H.run_history_check(prop, a.tier, mode, runs, cat, budget, ref, ASSUME_HIST, level=level, c07=c07)
+    return f
+
+
+CHECKS = {"C10": c10, "C09": c09, "C11": c11,
+          "C14": hist("C14", "C14", 3000, 150000, 90, 1500, "DESIGN.md §4.1 C14"),
+          "C08": hist("C08", "C08", 3000, 150000, 90, 1500, "DESIGN.md §4.1 C08"),
+          "C06": hist("C06", "C06", 3000, 150000, 90, 1500, "DESIGN.md §4.1 C06"),
+          "C16": hist("C16", "C16", 5000, 120000, 90, 1200, "DESIGN.md §4.1 C16", level="fault_enumeration"),
+          "C07": hist("C07", "C07", 3000, 200000, 90, 1800, "DESIGN.md §4.1 C07", c07=True)}
 
 
 def setup(a):
     # build every variant once so that the first check does not pay for a cold cache
-    for v, h in (("asan", "pool_sim"), ("asan", "blocks_sim"), ("tsan", "pool_sim"), ("tsan", "blocks_sim")):
+    for v, h in (("asan", "pool_sim"), ("asan", "blocks_sim"), ("asan", "history_sim"), ("tsan", "pool_sim"), ("tsan", "blocks_sim")):
         try:
             B.build(v, h, quiet=False)
         except B.BuildError as e:
@@ -63,6 +85,8 @@ def dispatch(a):
         rp = json.load(open(a.replay))
         if rp.get("harness") in ("pool_sim", "blocks_sim"):
             return T.replay_file(a.replay)
+        if rp.get("harness") == "history_sim":
+            return H.replay_file(a.replay)
         print("unknown replay harness", file=sys.stderr)
         return 2
     if a.what in CHECKS:
